@@ -49,6 +49,7 @@ struct Thread {
   void *arg = nullptr;
   int destructor_rounds = 0;
   long points = 0;
+  long api_since = -1;      // step at which the current library call was entered (-1: not inside one)
 };
 
 struct Sched {
@@ -58,6 +59,7 @@ struct Sched {
   std::vector<uint8_t> schedule;
   size_t sched_pos = 0;
   long steps = 0, max_steps = 200000;
+  int last_runner = -1; long last_switch_step = 0;   // who made the last step, and since when it has been the only one
   bool allow_spurious = false;
   int spurious_budget = 0;
   int fairness_k = 40;
@@ -153,7 +155,30 @@ inline void point(bool must_block, bool is_trace = false) {
   Thread *me = self;
   if (!s.active || !me) return;
   s.steps++; me->points++;
-  if (s.steps > s.max_steps) verdict("inconclusive-step-bound", "step bound exceeded (possible livelock): " + describe_all());
+  if (s.last_runner != me->id) { s.last_runner = me->id; s.last_switch_step = s.steps; }
+  if (me->in_api) { if (me->api_since < 0) me->api_since = s.steps; } else me->api_since = -1;
+  if (s.steps > s.max_steps) {
+    // a thread that has been spinning inside ONE library call for the last 100000 steps while every other thread is finished or blocked in a
+    // wait that only a running thread could end: nothing can ever change what it polls - a deadlock in the shape of a busy loop
+    bool others_stuck = true;
+    for (Thread *t : s.threads) if (t != me && !t->finished) {
+      bool stuck = false;
+      switch (t->wait) {
+      case W_MUTEX: { auto it = s.mutexes.find(t->wait_obj); stuck = it != s.mutexes.end() && it->second.owner != -1; break; }
+      case W_JOIN: stuck = t->wait_target >= 0 && t->wait_target < (int)s.threads.size() && !s.threads[(size_t)t->wait_target]->finished; break;
+      case W_COND: stuck = !t->woken && !(s.allow_spurious && s.spurious_budget > 0); break;
+      case W_RDLOCK: { auto it = s.rwlocks.find(t->wait_obj); stuck = it != s.rwlocks.end() && it->second.writer != -1; break; }
+      case W_WRLOCK: { auto it = s.rwlocks.find(t->wait_obj); stuck = it != s.rwlocks.end() && (it->second.writer != -1 || !it->second.readers.empty()); break; }
+      case W_BARRIER: stuck = true; break;
+      default: stuck = false;   // runnable, or not started yet
+      }
+      if (!stuck) { others_stuck = false; break; }
+    }
+    long since = me->api_since > s.last_switch_step ? me->api_since : s.last_switch_step;
+    if (me->in_api && me->api_since >= 0 && s.steps - since >= 100000 && others_stuck)
+      verdict("deadlock", std::string("a thread has been spinning inside ") + me->api_name + " for " + std::to_string(s.steps - since) + " scheduling steps while every other thread is finished or blocked (the call never returns; nothing can change the state it polls): " + describe_all());
+    verdict("inconclusive-step-bound", "step bound exceeded (possible livelock): " + describe_all());
+  }
   run_hooks();
   if (is_trace) { s.trace_points++; me->trace_run++; } else me->trace_run = 0;
   // enabled set
